@@ -376,6 +376,7 @@ func cmdLifecycle(f hx.Flags, r *hx.Result) {
 		lcReentrantDestroy(r, false)
 		lcReentrantDestroy(r, true)
 		lcHookEdges(r)
+		lcDestroyOnFullBuffer(r)
 	}
 }
 
@@ -419,6 +420,62 @@ func lcReentrantDestroy(r *hx.Result, async bool) {
 		r.Violate("log-panic:during-destroy", desc, "logging from an appender's Stop during Destroy panicked: %v %v", p, inner)
 	}
 	log.Destroy()
+	log.VerifReset()
+}
+
+// lcDestroyOnFullBuffer: Destroy when an asynchronous logger's buffer is exactly full and its worker busy: whatever
+// the overflow policy, Destroy returns once the worker can go on, and logging afterwards reaches the console.
+func lcDestroyOnFullBuffer(r *hx.Result) {
+	console := sys.InstallConsole()
+	for _, pol := range []string{"Discard", "DiscardOldest", "Block"} {
+		log.Destroy()
+		log.VerifReset()
+		sys.ResetAppenders()
+		tag := log.RegisterTag("fb_tag")
+		gate := &sys.RecAppender{Gate: make(chan struct{}), Entered: make(chan int64, 1024)}
+		sys.GateNext["fb1"] = gate
+		cfg := sys.Cfg{}
+		cfg.AddRec("fb1")
+		cfg.AddLogger("lg", "AsyncLogger", "", "fb_tag", []sys.Ref{{Ref: "fb1"}}, false, map[string]string{"bufferSize": "100", "bufferFullPolicy": pol})
+		err := log.Refresh(cfg.Map(nil))
+		delete(sys.GateNext, "fb1")
+		if err != nil {
+			r.SetInfra("lcDestroyOnFullBuffer refresh: %v", err)
+			return
+		}
+		ctx := context.Background()
+		log.Info(ctx, tag, log.Int("id", 1))
+		select {
+		case <-gate.Entered:
+		case <-time.After(8 * time.Second):
+			r.SetInfra("lcDestroyOnFullBuffer: the worker did not take the first event")
+			return
+		}
+		for id := int64(2); id <= 101; id++ {
+			log.Info(ctx, tag, log.Int("id", id)) // exactly fills the 100 slots
+		}
+		desc := map[string]any{"policy": pol, "buffer": "100 of 100 slots used, worker inside the appender", "then": "Destroy, worker released 200 ms later"}
+		done := make(chan any, 1)
+		go func() { done <- hx.Catch(func() { log.Destroy() }) }()
+		time.Sleep(200 * time.Millisecond)
+		close(gate.Gate)
+		select {
+		case p := <-done:
+			if p != nil {
+				r.Violate("destroy-panic", desc, "Destroy panicked: %v", p)
+			}
+		case <-time.After(8 * time.Second):
+			r.Violate("blocked:Destroy:full-buffer", desc, "Destroy did not return within 8 s after the worker was released")
+			return // the system is wedged
+		}
+		console.Take()
+		if p := hx.Catch(func() { log.Info(ctx, tag, log.Int("id", 500)) }); p != nil {
+			r.Violate("log-panic:destroyed", desc, "logging after Destroy panicked: %v", p)
+		} else if !strings.Contains(console.Take(), "id=500") {
+			r.Violate("console-delivery:event", desc, "an event logged after Destroy did not reach the console")
+		}
+		r.Eval(2)
+	}
 	log.VerifReset()
 }
 
